@@ -392,12 +392,14 @@ var exception_catch(var args) {
   
   /* If no Arguments catch all */
   if (len(args) is 0) {
+    e->active = false;
     return e->obj;
   }
   
   /* Check Exception against Arguments */
   foreach(arg in args) {
     if (eq(arg, e->obj)) {
+      e->active = false;
       return e->obj;
     }
   }
